@@ -291,6 +291,10 @@ theorem vecEff_ok (kd : Kind) (hk : kd.isVec = true) (s : State) (h : Inv kd s) 
     simp only [vecEff]
     repeat' split
     all_goals trivial
+  | nint a k =>
+    simp only [vecEff]
+    repeat' split
+    all_goals trivial
   | nrun a =>
     simp only [vecEff]
     repeat' split
